@@ -344,6 +344,16 @@ def run(ctx):
     g = cfg()
     for i in range(ctx.n(8000, 800000)):
         p = gp.gen_pep(ctx.rng, g)
+        if ctx.rng.random() < 0.3:
+            # pre-existing modifications drawn from the pool the rules offer: an offered group may equal what a residue
+            # (or terminus) already carries - the overwrite/append corner of the 'no form twice' clause
+            for k in list(p.res) or []:
+                if ctx.rng.random() < 0.6:
+                    p.res[k] = [M(str(v), kind='pool') for v in ctx.rng.sample(MODVALS, ctx.rng.choice([1, 1, 2]))]
+            if not p.res and p.seq:
+                p.res[ctx.rng.randrange(len(p.seq))] = [M(str(ctx.rng.choice(MODVALS)), kind='pool')]
+            if p.nterm and ctx.rng.random() < 0.5:
+                p.nterm = [M(str(ctx.rng.choice(MODVALS)), kind='pool')]
         if i % 2:
             run_static(ctx, st, pt, p)
         else:
